@@ -123,16 +123,15 @@ class FlakyRaw(io.RawIOBase):
         return self._pos
 
 
-_TRIGGERS = {}          # id(DebFile object) -> (the object, Trigger of the file object it was given)
+_TRIGGERS = __import__("weakref").WeakKeyDictionary()      # DebFile object -> Trigger of the file object it was given
 
 
 def trigger_of(deb):
-    t = _TRIGGERS.get(id(deb))
-    return t[1] if t is not None and t[0] is deb else None
+    return _TRIGGERS.get(deb)
 
 
 def forget_trigger(deb):
-    _TRIGGERS.pop(id(deb), None)
+    _TRIGGERS.pop(deb, None)
 
 
 def obs_faulted(deb, k, kind, call):
@@ -291,9 +290,7 @@ def open_flaky(blob, how):
         trig = raw.trigger
         fobj = io.BufferedReader(raw, buffer_size=[512, 8192, 65536][len(blob) % 3])
     deb = DebFile(fileobj=fobj)
-    if len(_TRIGGERS) > 64:
-        _TRIGGERS.clear()
-    _TRIGGERS[id(deb)] = (deb, trig)
+    _TRIGGERS[deb] = trig
     return deb
 
 
